@@ -159,6 +159,12 @@ def build_world() -> World:
     ax("D-entry-nonnull", "forall[Node, int](lambda n, i: implies(n != None and 0 <= i and i < len(n.entry), n.entry[i] != None), lambda n, i: n.entry[i])", "bounded:StateNode.__init__ builds entry from ActionDefinition(...) constructor calls")
     ax("D-actions-nonnull", "forall[Trans, int](lambda t, i: implies(t != None and 0 <= i and i < len(t.actions), t.actions[i] != None), lambda t, i: t.actions[i])", "bounded:TransitionDefinition.__init__ builds actions from ActionDefinition(...) constructor calls")
 
+    ax("D-states-nonnull", "forall[Node, str](lambda n, k: implies(n != None and k in n.states, n.states[k] != None and n.states[k].parent == n), lambda n, k: n.states[k])",
+       "bounded:StateNode.__init__ builds states from StateNode(...) constructor calls with parent=self")
+
+    ax("D-states-wf", "forall[Node, int](lambda n, i: implies(n != None and 0 <= i and i < len(n.states), keys(n.states)[i] in n.states), lambda n, i: keys(n.states)[i])",
+       "definition (python dict: every enumerated key is a key of the dict)")
+
     # child_toward(d, t): the child of d on the path down to t (defined when t is a proper descendant of d)
     w.fn("child_toward", [Node, Node], Node)
     ax("T-child-toward", "forall[Node, Node](lambda d, t: implies(anc(t, d) and t != d, child_toward(d, t) != None and child_toward(d, t).parent == d and anc(t, child_toward(d, t))), lambda d, t: child_toward(d, t))",
@@ -173,6 +179,9 @@ def build_world() -> World:
     w.fn("idprefix", [Node, Node], BOOL)
     ax("I-S2", "forall[Node, Node](lambda n, a: implies(n != None and a != None, idprefix(n, a) == (anc(n, a) and n != a)), lambda n, a: idprefix(n, a))",
        "assumed under nodot_keys (string induction over the id construction); bounded: validated on every generated machine; dotted keys are a known finding (C12)")
+
+    ax("I-inj", "forall[Node, Node](lambda a, b: implies(a != None and b != None and a.id == b.id, a == b), lambda a, b: (a.id, b.id))",
+       "assumed under nodot_keys (ids are the key paths from the root; sibling keys are distinct dict keys); bounded: validated on every generated machine")
 
     def str_method_hook(eng, st, recv, name, args):
         idf = w.classes["Node"].fields["id"].fns[0]
